@@ -517,3 +517,83 @@ fn oracle_edifact_rt() {
         i += 1;
     }
 }
+
+// ---------------------------------------------------------------------------
+// decode_parts prelude / trailer (C16, C04) on ASCII bodies.  The five
+// non-ASCII mode decoders are replaced by stubs that fail (their behaviour is
+// the subject of acc_*); what is checked here is the macro re-expansion, the
+// FNC1 strip and the main loop around decode_ascii.
+
+fn stub_b256<'a>(_d: Reader<'a>, _o: &mut Vec<u8>) -> Result<(Reader<'a>, EncodationType), DataDecodingError> {
+    Err(DataDecodingError::UnexpectedEnd)
+}
+fn stub_c40<'a>(_d: Reader<'a>, _o: &mut Vec<u8>, _a: &[u8; 37], _b: &[u8; 32]) -> Result<(Reader<'a>, EncodationType), DataDecodingError> {
+    Err(DataDecodingError::UnexpectedEnd)
+}
+
+fn parts_case<const B: usize>(first: u8) {
+    // stream: [first codeword (236 / 237 / 232 / none), B ASCII codewords 1..=128]
+    let body: [u8; B] = kani::any();
+    let mut cw = [0u8; 4];
+    let mut n = 0;
+    if first != 0 {
+        cw[0] = first;
+        n = 1;
+    }
+    let mut i = 0;
+    while i < B {
+        kani::assume(body[i] >= 1 && body[i] <= 128);
+        cw[n] = body[i];
+        n += 1;
+        i += 1;
+    }
+    let r = decode_parts(&cw[..n], true);
+    let head: &[u8] = if first == 236 { MACRO05_HEAD } else if first == 237 { MACRO06_HEAD } else { &[] };
+    let is_macro = first == 236 || first == 237;
+    match r {
+        Ok(p) => {
+            let want_len = head.len() + B + if is_macro { 2 } else { 0 };
+            assert!(p.output.len() == want_len);
+            assert!(p.eci_spans.is_empty());
+            assert!(p.fnc1 == (first == 232));
+            i = 0;
+            while i < 7 {
+                if i < head.len() {
+                    assert!(p.output[i] == head[i]);
+                }
+                i += 1;
+            }
+            i = 0;
+            while i < B {
+                assert!(p.output[head.len() + i] == body[i] - 1);
+                i += 1;
+            }
+            if is_macro {
+                assert!(p.output[want_len - 2] == 0x1E && p.output[want_len - 1] == 0x04);
+            }
+        }
+        Err(_) => assert!(false),
+    }
+}
+
+#[kani::proof]
+#[kani::unwind(9)]
+#[kani::stub(decode_base256, stub_b256)]
+#[kani::stub(decode_x12, stub_b256)]
+#[kani::stub(decode_edifact, stub_b256)]
+#[kani::stub(decode_c40_like, stub_c40)]
+fn parts_macro05() {
+    parts_case::<2>(236);
+}
+
+#[kani::proof]
+#[kani::unwind(9)]
+#[kani::stub(decode_base256, stub_b256)]
+#[kani::stub(decode_x12, stub_b256)]
+#[kani::stub(decode_edifact, stub_b256)]
+#[kani::stub(decode_c40_like, stub_c40)]
+fn parts_macro06_fnc1() {
+    parts_case::<2>(237);
+    parts_case::<1>(232);
+    parts_case::<0>(236);
+}
